@@ -184,10 +184,12 @@ Proof.
 Qed.
 
 (* ---------- flat units ---------- *)
+Definition first_ok (e : expr) : Prop :=
+  match e with XAnd (x :: _) => is_single_or x = false | _ => True end.
 Definition unit_result (v : nat -> tv) (conds : list expr) (mm : option (sem * sem)) : Prop :=
   (conds = [] /\ mm = None) \/
   exists e m n nx, conds = [e] /\ mm = Some (m, n) /\
-    okx e = true /\ closedx e = true /\ is_or e = false /\ dx v e = sev v m /\
+    okx e = true /\ closedx e = true /\ is_or e = false /\ first_ok e /\ dx v e = sev v m /\
     mk_not [e] = Some nx /\
     okx nx = true /\ closedx nx = true /\ is_or nx = false /\ dx v nx = sev v n.
 
@@ -216,6 +218,7 @@ Proof.
   destruct (not_single_raw v e Hok Hc Hna) as [H1 [H2 H3]].
   right. exists e, (sem_of_E et), (SNot (sem_of_E et)), (XNot [e]).
   repeat split; try assumption; try reflexivity.
+  - destruct Hmk; subst mk; exact I.
   - unfold dx. rewrite HtoE. apply evE_sem.
   - rewrite H3. unfold dx. rewrite HtoE, evE_sem. reflexivity.
 Qed.
@@ -348,8 +351,6 @@ Proof.
 Qed.
 
 (* the relation, with the facts needed to go through Where.Build *)
-Definition first_ok (e : expr) : Prop :=
-  match e with XAnd (x :: _) => is_single_or x = false | _ => True end.
 Definition R' (v : nat -> tv) (e : expr) (p : bool * sem) : Prop :=
   R v e p /\ is_or e = fst p /\ first_ok e.
 
@@ -426,4 +427,72 @@ Proof.
         destruct (IH _ _ _ HPr Hdr Hnr Hb eq_refl) as [new [-> HF]]. exists (XOr [e] :: new).
         rewrite <- app_assoc. split; [reflexivity|]. constructor; [|exact HF].
         repeat split; cbn [fst snd]; try assumption; try reflexivity.
+Qed.
+
+
+(* ---------- every unit of the domain ---------- *)
+Lemma R'_oksL v l sq : Forall2 (R' v) l sq -> oksL l = true.
+Proof.
+  induction 1 as [|e p l sq [[H1 [H2 _]] _] _ IH]; [reflexivity|]. cbn. rewrite H1, H2, IH. reflexivity.
+Qed.
+Lemma R'_R v l sq : Forall2 (R' v) l sq -> Forall2 (R v) l sq.
+Proof. induction 1 as [|e p l sq [H _] _ IH]; constructor; assumption. Qed.
+
+Lemma flat_to_res v tbl u conds mm :
+  unit_result v conds mm -> unit_res v (flat tbl u) conds mm.
+Proof.
+  intros [H|H]; [left; exact H|].
+  destruct H as (e & m & n & nx & -> & -> & H1 & H2 & H3 & H4 & H5 & H6 & H7 & H8 & H9 & H10).
+  right. exists e, m, n. repeat split; try assumption. intros _. exists nx. tauto.
+Qed.
+
+Lemma seq_of_cons k m n l : seq_of ((k, (m, n)) :: l) =
+  (match k with KWhere => (false, m) | KNot => (false, n) | KOr => (true, m) end) :: seq_of l.
+Proof. destruct k; reflexivity. Qed.
+
+Lemma all_units v tbl : forall u, Punit v tbl u.
+Proof.
+  induction u as [tmpl txt|tmpl txt|ms|ms|c|cs IH] using unit_ind'; intros conds mm Hd Hn Hb Hm;
+    [apply flat_to_res; eapply flat_unit; [exact Hd|exact Hn|exact Hb|exact Hm] ..|].
+  (* group *)
+  rewrite domx_group in Hd. apply andb_prop in Hd. destruct Hd as [Hfirst Hd].
+  rewrite unit_pairs_group in Hn. rewrite build_cond_group in Hb. rewrite umean_group in Hm.
+  destruct (build_chain_from tbl [] cs) as [wh|] eqn:Ew; [|discriminate].
+  destruct (mean_calls tbl cs) as [lm|] eqn:El; [|discriminate].
+  destruct (chain_R v tbl cs [] wh lm IH Hd Hn Ew El) as [new [Hnew HF]]. cbn [app] in Hnew. subst new.
+  unfold group_first_ok, build_chain in Hfirst. rewrite Ew in Hfirst.
+  cbn [flat]. remember (seq_of lm) as sq eqn:Hsq0 in HF. destruct HF as [|x p wh' lm' Hx HF'].
+  - (* no effective member *)
+    destruct lm; [|discriminate]. inversion Hb; inversion Hm; subst. left. tauto.
+  - destruct lm as [|[k [m n]] lm0]; [discriminate|]. rewrite seq_of_cons in Hsq0. inversion Hsq0; subst; clear Hsq0.
+    destruct Hx as [[Hokx [Hcx [Hsx Hdx]]] [Horx Hfx]]. cbn [fst snd] in *.
+    remember (seq_of lm0) as sq1 eqn:Hsq1 in HF'. destruct HF' as [|y q wh'' lm'' Hy HF''].
+    + (* exactly one effective member *)
+      destruct lm0; [|discriminate]. right.
+      destruct k; cbn [fst] in *.
+      * (* Where *) assert (Hwh : (match [x] with [XOr l] => [XAnd l] | _ => [x] end) = [x]) by (destruct x; try reflexivity; discriminate).
+        rewrite Hwh in Hb. cbn [mk_and olist] in Hb. rewrite Horx in Hb. cbn [olist mk_and] in Hb. rewrite Horx in Hb.
+        inversion Hb; inversion Hm; subst. exists x, m, n. repeat split; try assumption. discriminate.
+      * (* Not *) assert (Hwh : (match [x] with [XOr l] => [XAnd l] | _ => [x] end) = [x]) by (destruct x; try reflexivity; discriminate).
+        rewrite Hwh in Hb. cbn [mk_and olist] in Hb. rewrite Horx in Hb. cbn [olist mk_and] in Hb. rewrite Horx in Hb.
+        inversion Hb; inversion Hm; subst. exists x, n, (SNot n). repeat split; try assumption. discriminate.
+      * (* Or: the group would start with an OR alternative: excluded by group_first_ok *)
+        destruct x as [| | | |l|]; try discriminate. destruct l as [|a [|? ?]]; discriminate.
+    + (* at least two effective members: AND/OR list in parentheses *)
+      right.
+      assert (Hb' : conds = [XAnd (x :: y :: wh'')]) by (destruct x; cbn in Hb; inversion Hb; reflexivity).
+      clear Hb. subst conds. set (wh := x :: y :: wh'') in *.
+      assert (HFall : Forall2 (R' v) wh (seq_of ((k, (m, n)) :: lm0))).
+      { rewrite seq_of_cons. constructor; [repeat split; assumption|]. rewrite <- Hsq1. constructor; assumption. }
+      assert (Hoks : oksL wh = true) by (eapply R'_oksL; exact HFall).
+      destruct lm0 as [|kmn lm1]; [discriminate|].
+      destruct (val_list_R v wh _ (R'_R _ _ _ HFall) ltac:(discriminate)) as [b0 [s0 [r0 [Hsq Hval]]]].
+      assert (Hmm : exists N, mm = Some (prec_sem (seq_of ((k, (m, n)) :: kmn :: lm1)), N))
+        by (destruct k; inversion Hm; eexists; reflexivity).
+      destruct Hmm as [N ->].
+      exists (XAnd wh), (prec_sem (seq_of ((k, (m, n)) :: kmn :: lm1))), N.
+      repeat split; try reflexivity; try discriminate.
+      * rewrite okx_and. exact Hoks.
+      * unfold wh. cbn [first_ok]. destruct (is_single_or x); [discriminate Hfirst|reflexivity].
+      * rewrite dx_and by (exact Hoks || reflexivity). rewrite Hval, <- Hsq. reflexivity.
 Qed.
